@@ -446,12 +446,16 @@ func (db *DB) applyRequests(reqs []*request) (int, error) {
 		if r == nil || len(r.Entries) == 0 {
 			continue
 		}
-		if err := db.writeToLSM(r); err != nil {
-			return i, pkgerrors.Wrap(err, "writeRequests")
-		}
+		// Record the value-log head (and with it any segment the value-log write just
+		// created) in the manifest before the pointers reach the WAL: reconcileManifest
+		// removes segments the manifest does not know, which would leave a WAL record
+		// flushed by a mid-batch memtable rotation pointing into a deleted file.
 		db.Lock()
 		db.updateHead(r.Ptrs)
 		db.Unlock()
+		if err := db.writeToLSM(r); err != nil {
+			return i, pkgerrors.Wrap(err, "writeRequests")
+		}
 	}
 	return -1, nil
 }
